@@ -133,13 +133,20 @@ func NewWSTransport(ctx context.Context, opts WSTransportOptions) *WSTransport {
 // existing connection when one is available for the same endpoint, subprotocol,
 // headers, and init payload, dialing a new one otherwise.
 func (t *WSTransport) Subscribe(ctx context.Context, req *common.Request, opts common.Options, handler common.Handler) (func(), error) {
-	conn, err := t.getOrDial(ctx, opts)
-	if err != nil {
-		return nil, err
-	}
+	for {
+		conn, err := t.getOrDial(ctx, opts)
+		if err != nil {
+			return nil, err
+		}
 
-	id := xid.New().String()
-	return conn.subscribe(ctx, id, req, handler)
+		id := xid.New().String()
+		cancel, err := conn.subscribe(ctx, id, req, handler)
+		if errors.Is(err, common.ErrConnectionClosed) && ctx.Err() == nil {
+			// the connection was idle-closed between getOrDial and subscribe: dial a new one
+			continue
+		}
+		return cancel, err
+	}
 }
 
 // pingLoop sends periodic pings to all active connections and shuts down
